@@ -165,6 +165,13 @@ func RunOne(t *testing.T, prop string, seed uint64, sc Scenario, o RunOpts, res 
 		res.NonDefault = k.NonDefault()
 		res.Switches = k.Switches()
 		res.Counters = k.Counters
+		if pr, ok := sc.(interface {
+			Probes(k *sim.Kernel) map[string]int
+		}); ok {
+			for name, n := range pr.Probes(k) {
+				res.Counters["probe."+name] += n
+			}
+		}
 		res.Tape = k.TapeOut
 		if o.KeepSites {
 			res.Sites = k.Sites()
